@@ -144,33 +144,76 @@ def core_int(rng, names, depth):
     return a()
 
 
-def core_stmts(rng, names, depth, lines, ind, counter, core_expr=None):
+def core_jump(rng, loops):
+    """`break` / `continue`, plain or with the label of an enclosing loop (`loops`: the labels of the enclosing loops, innermost last)"""
+    kind = rng.choice(["break", "continue"])
+    labs = [l for l in loops if l]
+    if labs and rng.random() < 0.5:
+        return f"{kind} {rng.choice(labs)};"
+    return f"{kind};"
+
+
+def core_stmts(rng, names, depth, lines, ind, counter, core_expr=None, loops=()):
     core_expr = core_expr or globals()["core_expr"]
-    """statements of the core fragment: let, expression statements, blocks, while loops (bounded counters);
-    `names` = visible names (a block's names end with it)"""
+    """statements of the core fragment: let, expression statements, blocks, `while` / `loop` with bounded counters and optional
+    labels, `if` with statement blocks in statement position, break / continue (plain and labelled) under such an `if`;
+    `names` = visible names (a block's names end with it); `loops` = labels of the enclosing loops"""
     names = list(names)
     for _ in range(rng.randint(1, 4 if depth else 6)):
         r = rng.random()
-        if r < 0.4 or not names:
+        if r < 0.36 or not names:
             n = rng.choice(["x", "y", "z", "w"])
             lines.append(f"{ind}let {n} = {core_expr(rng, names, 3)};")
             if n not in names:
                 names.append(n)
-        elif r < 0.7 or depth >= 3:
-            lines.append(f"{ind}{core_expr(rng, names, 3)};")
-        elif r < 0.82:
+        elif r < 0.6 or depth >= 3:
+            if loops and rng.random() < 0.25:
+                # a jump under an `if` (statement position), sometimes with an `else` / `else if` that carries on
+                c = core_expr(rng, names, 2)
+                form = rng.random()
+                if form < 0.5:
+                    lines.append(f"{ind}if {c} {{ {core_jump(rng, loops)} }}")
+                elif form < 0.75:
+                    lines.append(f"{ind}if {c} {{ {core_expr(rng, names, 2)}; {core_jump(rng, loops)} }} else {{ {core_expr(rng, names, 2)} }}")
+                else:
+                    lines.append(f"{ind}if {c} {{ {core_expr(rng, names, 2)} }} else if {core_expr(rng, names, 2)} {{ {core_jump(rng, loops)} }} else {{ let q = {core_expr(rng, names, 2)}; }}")
+            else:
+                lines.append(f"{ind}{core_expr(rng, names, 3)};")
+        elif r < 0.68:
             lines.append(ind + "{")
-            core_stmts(rng, names, depth + 1, lines, ind + "  ", counter, core_expr)
+            core_stmts(rng, names, depth + 1, lines, ind + "  ", counter, core_expr, loops)
             lines.append(ind + "}")
+        elif r < 0.78:
+            # `if` with statement blocks in statement position
+            lines.append(f"{ind}if {core_expr(rng, names, 2)} {{")
+            core_stmts(rng, names, depth + 1, lines, ind + "  ", counter, core_expr, loops)
+            form = rng.random()
+            if form < 0.4:
+                lines.append(ind + "}")
+            elif form < 0.8:
+                lines.append(ind + "} else {")
+                core_stmts(rng, names, depth + 1, lines, ind + "  ", counter, core_expr, loops)
+                lines.append(ind + "}")
+            else:
+                lines.append(f"{ind}}} else if {core_expr(rng, names, 2)} {{")
+                core_stmts(rng, names, depth + 1, lines, ind + "  ", counter, core_expr, loops)
+                lines.append(ind + "}")
         else:
             counter[0] += 1
             i = f"i{counter[0]}"
             k = rng.randint(0, 4)
-            cond = rng.choice([f"{i} < {k}", f"{i} <= {k}", f"{k} > {i}", f"({i} < {k}) && true", f"!({i} >= {k})"])
+            lab = f"L{counter[0]}" if rng.random() < 0.5 else None
+            head = f"{lab}: " if lab else ""
             lines.append(f"{ind}let {i} = 0;")
-            lines.append(f"{ind}while {cond} {{")
-            lines.append(f"{ind}  {i} = {i} + 1;")
-            core_stmts(rng, names, depth + 1, lines, ind + "  ", counter, core_expr)
+            if rng.random() < 0.6:
+                cond = rng.choice([f"{i} < {k}", f"{i} <= {k}", f"{k} > {i}", f"({i} < {k}) && true", f"!({i} >= {k})"])
+                lines.append(f"{ind}{head}while {cond} {{")
+                lines.append(f"{ind}  {i} = {i} + 1;")
+            else:
+                lines.append(f"{ind}{head}loop {{")
+                lines.append(f"{ind}  {i} = {i} + 1;")
+                lines.append(f"{ind}  if {i} > {k} {{ break; }}")
+            core_stmts(rng, names, depth + 1, lines, ind + "  ", counter, core_expr, tuple(loops) + (lab,))
             lines.append(ind + "}")
     return names
 
